@@ -394,7 +394,13 @@ ADDED = {
     "C09": " pathrs_reopen(n, flags) is called for every descriptor number of the suite (0 included) right after Handle::reopen and "
            "must give the same object and flags or the same errno.",
     "C11": " The transcript suite also runs with descriptor 0 closed before every operation (both backends): the kernel's first "
-           "answer is then the valid descriptor 0.",
+           "answer is then the valid descriptor 0; the C API suite runs that way too.",
+    "C02": " Emulated lookups through '..' by a thread with its own descriptor table (unshare(CLONE_FILES)) while the leader holds "
+           "other directories under the same numbers: the outcome is the kernel's (check_current reads the calling thread's descriptors).",
+    "C12": " mkdir_all by a thread with its own descriptor table while the leader holds another directory under the same numbers "
+           "creates the directories where the path says.",
+    "C14": " The hand-made operations of the fault grid with every system call failing in turn: RENAME_NOREPLACE never reports "
+           "success for an existing destination, RENAME_EXCHANGE leaves both names in place.",
     "C13": " Whole-operation theorem (Props/C13_Dots.lean): when the last component of the path is '.' or '..' (every spelling: "
            "pre/., pre/.., bare) Root::remove_all is 'resolve the parent; close; InvalidArgument' in every environment: never Ok, "
            "and no unlinkat, directory-stream or creating call is made at all.",
